@@ -181,7 +181,34 @@ func (m *Module) Func(pkg, recv, name string) *ssa.Function {
 				cands = append(cands, m.Prog.FuncValue(f))
 			}
 		}
-		return m.funcByFingerprint(pkg, recv, name, cands)
+		if fn := m.funcByFingerprint(pkg, recv, name, cands); fn != nil {
+			return fn
+		}
+		// a package-level function that became a method of a (session) type of the package under the
+		// same name: unique among the methods declared in the package
+		var meth []*ssa.Function
+		for _, nm := range sc.Names() {
+			tn, ok := sc.Lookup(nm).(*types.TypeName)
+			if !ok {
+				continue
+			}
+			named, ok := tn.Type().(*types.Named)
+			if !ok {
+				continue
+			}
+			for i := 0; i < named.NumMethods(); i++ {
+				if f := named.Method(i); f.Name() == name {
+					if fn := m.Prog.FuncValue(f); fn != nil {
+						meth = append(meth, fn)
+					}
+				}
+			}
+		}
+		if len(meth) == 1 {
+			noteFallback("anchor: %s.%s is now the method %s", pkg, name, FuncName(meth[0]))
+			return meth[0]
+		}
+		return nil
 	}
 	n := m.LookupType(pkg, recv)
 	if n == nil {
